@@ -133,10 +133,17 @@ func (e *exec) Body() {
 			mine = append(mine, r)
 		}
 		vrt.GoNamed(fmt.Sprintf("disp%d", ti), func() {
+			// like a connection's reader, a dispatcher hands every line over in the same memory and
+			// overwrites it as soon as the hand-off has returned
+			buf := make([]byte, 0, 64)
 			for _, r := range mine {
 				e.clock++
 				r.call = e.clock
-				t.Dispatch([]byte(fmt.Sprintf("%s %d %d", r.op.Name, r.id, r.op.Ts)))
+				buf = append(buf[:0], fmt.Sprintf("%s %d %d", r.op.Name, r.id, r.op.Ts)...)
+				t.Dispatch(buf)
+				for i := range buf {
+					buf[i] = '#'
+				}
 				e.clock++
 				r.ret = e.clock
 			}
@@ -344,6 +351,7 @@ func main() {
 	}
 	_ = nthreads
 	rep.Assume = []string{
+		"every dispatcher hands its lines over in one reused buffer and overwrites it after each hand-off (as input.Plain does with the scanner's buffer)",
 		"interleavings at statement granularity inside validate.Ordered (vrt.YieldG before every statement), at synchronisation operations elsewhere; sequential consistency",
 		fmt.Sprintf("delay bound %d; scripts over alphabet %v, <=%d points per dispatcher", bound, alpha, maxLen),
 		fmt.Sprintf("name identity: one dispatcher, n1@2 n2@1 n1@2 n2@1 for every ordered pair of distinct names of %v", ident),
